@@ -68,6 +68,8 @@ pub struct FullWorld {
     pub hung: Option<String>,
     pub steps: usize,
     pub choice_log: Vec<(usize, usize, usize, bool)>,
+    /// Per peer: everything the client wrote on the first connection to it (short form).
+    pub first_conn_msgs: Vec<Vec<String>>,
 }
 
 pub fn tracker_body(peers: &[&PeerCfg]) -> Vec<u8> {
@@ -142,6 +144,7 @@ impl FullWorld {
             hung: None,
             steps: 0,
             choice_log: vec![],
+            first_conn_msgs: vec![vec![]; peer_cfgs.len()],
         };
         w.run_step(None, &[]);
         w
@@ -220,6 +223,13 @@ impl FullWorld {
                     }
                 }
                 c.writes_seen = writes.len();
+            }
+        }
+        for (i, p) in self.peers.iter().enumerate() {
+            if p.connects == 1 {
+                if let Some(c) = p.conn.as_ref() {
+                    self.first_conn_msgs[i] = c.msgs.iter().map(|m| m.short()).collect();
+                }
             }
         }
     }
